@@ -39,6 +39,18 @@ CHECKS = {
          "Every distinct document reached (strings in maps, lists, nested objects, conflicts, tombstones) is saved and loaded with ConvertToText; slot-by-slot: slots with visible strings hold exactly one text with the highest-id string, all other slots unchanged with the same ids, no visible string remains, heads unchanged when the reference finds no visible string anywhere.",
          "No claim about unreachable objects; Table outside the alphabet.",
          "DESIGN.md §4 C40", H),
+ "C20": ("model_checking", "explicit-state BFS of the real sync protocol (2 peers, encoded channels), fault-injected Bloom false positives, fair-completion convergence oracle in every state",
+         "All interleavings of generate / deliver / local edit / injected Bloom false positive for two real peers from six start worlds, frontier run to exhaustion under edit and fault budgets; from every reachable state a fair completion must go quiet within 10 rounds with equal heads and reads, and stay quiet.",
+         "Hook: thread-local false-positive plan in BloomFilter::contains_hash (only false->true, non-empty filters). Budgets: 1 edit/peer + 1 false positive (quick), 2+2 (thorough).",
+         "DESIGN.md §4 C20", "mc-sync"),
+ "C21": ("model_checking", "explicit-state BFS of the real sync protocol (2-3 peers) with link drops, message loss, fresh/persisted state, cuts, snapshot restore",
+         "All interleavings for three peers (line; triangle in thorough) and two peers with two drops: drop = in-flight loss + reconnect with State::new() or decode(encode(state)); cut = link removed; restore = older document snapshot; from every reachable state fair completion leaves every connected component with equal heads and nobody waiting.",
+         "Budgets: drops<=2, cuts<=1, restore<=1, edits<=1/peer; triangle only in the thorough tier (capped, reported).",
+         "DESIGN.md §4 C21", "mc-sync"),
+ "C22": ("model_checking", "explicit-state BFS of the real sync protocol with read-only toggles; byte-level edge oracle",
+         "All interleavings of generate / deliver / edit / set_read_only toggles on either side; every delivery to a read-only state must leave save() bytes unchanged; fair completion gives linked writable peers all changes of the read-only peer; after switching back, completion ends with equal heads.",
+         "Budgets: toggles<=1 (quick) / 2 (thorough), edits<=1 per peer.",
+         "DESIGN.md §4 C22", "mc-sync"),
 }
 
 NOT_YET = "check not built yet in this round (planned: see DESIGN.md §4); not claimed"
@@ -69,6 +81,8 @@ def main():
         "engines": [
             {"name": "mc-history", "path": "/verif/amc/src/explore.rs", "serves_properties": [p for p in ALL if p in CHECKS and CHECKS[p][5] == "mc-history"],
              "kind_free_text": "level-synchronous parallel BFS over worlds of real Automerge replicas; canonical key = heads+actor+budgets; confluence check on key merges; per-state and per-transition oracles"},
+            {"name": "mc-sync", "path": "/verif/amc/src/syncmc.rs", "serves_properties": [p for p in ALL if p in CHECKS and CHECKS[p][5] == "mc-sync"],
+             "kind_free_text": "explicit-state BFS over n real peers, per-link sync::State, FIFO channels of encoded messages, fault budgets (false positives, drops, cuts, restores, read-only toggles); fair-completion oracle from every state"},
         ],
         "checks": checks,
         "not_applicable": na,
